@@ -138,7 +138,10 @@ def main(argv: List[str]) -> int:
                 continue
             # content with the Unicode line separators that str.splitlines() honours: a route that
             # re-splits its input would change it
-            doc = doc + [{'d': 'sticky', 'name': 'zz_sep', 'text': 'sep~u2028~arator ~u0085~ nel~u2029~ par'}]
+            # ... and with U+FEFF (the byte order mark as a character: zero width no-break space) INSIDE the text, once and
+            # twice: only a LEADING mark is not content
+            doc = doc + [{'d': 'sticky', 'name': 'zz_sep', 'text': 'sep~u2028~arator ~u0085~ nel~u2029~ par'},
+                         {'d': 'sticky', 'name': 'zz_zwnbsp', 'text': 'zero~ufeff~width and~ufeff~ again'}]
             for route in ROUTES + BAD:
                 for bom in (False, True):
                     for allow in (False, True):
